@@ -722,6 +722,12 @@ def lazy_purge_history(rng):
             sid = rng.choice(g.regs)
             u, v = g.tok(sid)
             prog.append((INS, [sid, rng.randrange(first_new, g.nh), u, v]))
+        if rng.random() < 0.5:
+            # a deferred insertion queued by the closure for an entity it has just created (performed later in the
+            # same maintain, when the entity - if created through the entities resource - is not merged yet)
+            sid = rng.choice(g.regs)
+            u, v = g.tok(sid)
+            prog.append((LINS, [sid, rng.randrange(first_new, g.nh), u, v]))
         doomed_in_closure = None
         if g.live and rng.random() < 0.5:
             # the closure itself requests the deferred deletion of an entity that owns components: it dies (and is
